@@ -73,6 +73,10 @@ class MediaSegment(DashElement):
                                  period_availability_start: datetime.datetime,
                                  presentationTimeOffset: int,
                                  timescale: int) -> None:
+        if period_availability_start is None or self.mpd.timeShiftBufferDepth is None:
+            # MPD@availabilityStartTime / @timeShiftBufferDepth missing: reported
+            # by the manifest checks, the availability window is unknown
+            return
         decode_time = self.expected_decode_time
         if decode_time is None:
             decode_time = (
